@@ -29,11 +29,15 @@ def scenarios(quick):
                 (T.chain3(maxseq=2, conn_ticks=2), 'SpecPrompt', ['no_old_send'], {}, dict(max_faults=1, fault_kinds=['kill'], victims=['A']))]),
         conf=[(T.chain3(maxseq=2, conn_ticks=3), 'SpecPrompt', 10 if quick else 150, 200, dict(max_faults=2, fault_kinds=['kill', 'drop'], victims=['S', 'A', 'K'])),
               (T.chain2(maxseq=2), 'Spec', 8 if quick else 100, 200, {}),
-              (T.hidden(maxseq=1), 'SpecPrompt', 6 if quick else 60, 150, {})],
+              (T.hidden(maxseq=1), 'SpecPrompt', 6 if quick else 60, 150, {}),
+              (T.prefix_topics(maxseq=1), 'SpecPrompt', 6 if quick else 60, 200, {}),
+              (T.join_late(maxseq=3), 'SpecPrompt', 6 if quick else 80, 300, dict(max_faults=1, fault_kinds=['stall'], victims=['K']))],
         rand=[(T.chain3(maxseq=4, conn_ticks=3), 10 if quick else 200, 800, 0.08, 0.03, True),
               (T.tee_rejoin2(maxseq=4, conn_ticks=3, skip=()), 8 if quick else 150, 800, 0.05, 0.0, True),
               (T.hidden(maxseq=3), 6 if quick else 100, 500, 0.1, 0.05, False),
-              (T.chain2(maxseq=4), 8 if quick else 150, 500, 0.3, 0.0, False)],
+              (T.chain2(maxseq=4), 8 if quick else 150, 500, 0.3, 0.0, False),
+              (T.prefix_topics(maxseq=3), 6 if quick else 100, 600, 0.05, 0.0, False),
+              (T.join_late(maxseq=8), 8 if quick else 120, 1500, 0.03, 0.0, 'late')],
     )
 
 
@@ -50,6 +54,12 @@ def kill_faults(rng, pipe):
         out.append((t + delay, lambda p, f=f: p.restart(f) if f not in p.world.tasks else None))
         t += delay + rng.randrange(30, 200)
     return out
+
+
+def late_join(rng, pipe):
+    """K is held back from the very start while the rest of the pipeline runs ahead, and joins later"""
+    at = rng.randrange(80, 400)
+    return [(0, lambda p: p.stall('K')), (at, lambda p: p.resume('K'))]
 
 
 # ---- content pipeline: byte-exact delivery for every kind of frame and subscription form -------------------------------
@@ -182,7 +192,9 @@ def run(ctx):
         eng.cover(topos.chain2(maxseq=1), 'Spec', bounds=dict(pq=5, rq=2, lq=2))
         eng.cover(topos.chain2(maxseq=1, conn_ticks=2), 'SpecPrompt', max_faults=1, fault_kinds=['kill'], victims=['S', 'K'], max_paths=4000)
     for topo, n, steps, pt, pd, faults in sc['rand']:
-        eng.random_runs(topo, n, steps, p_timeout=pt, p_drop=pd, faults=kill_faults if faults else None, tag='rand', validate=3 if ctx.quick else 25)
+        eng.random_runs(topo, n, steps, p_timeout=pt, p_drop=pd,
+                        faults=late_join if faults == 'late' else kill_faults if faults else None, tag='rand',
+                        validate=3 if ctx.quick else 25)
     content_check(eng, rep, ctx, 18 if ctx.quick else 300)
     return rep.finish()
 
